@@ -174,6 +174,18 @@ class C16(Check):
             "Exhaustive also: for each of the 21 input port types and each admissible label of the arriving value (42 pairs) a relay with "
             "an output port of each integrity of that data type and of another data type (4), value from outside / over a wire / "
             "the same object handed back on two ports. "
+            "STATE THAT OUTLIVES ONE CALL (fifth pass, ~30% of all cases each; model: SExecRef / SAssign, cap_run): the caller's own "
+            "external_inputs mapping OBJECTS -- 1-2 mappings built once per case (as given, or every value an explicit TypedValue) and the "
+            "very same object passed to 2-4 execute() calls in a row, on the same executor or on a new one with the same handlers, "
+            "interleaved with ordinary calls and with the caller rewriting the object himself; every such execution is monitored on "
+            "its own against what the caller put into the object, and what he finds in the object after each call is an observation "
+            "compared with the model (unchanged); and ModuleSpec objects shared between 1-3 further diagrams (sub-lists of the case's "
+            "modules, in or out of declaration order, add_module / constructor), required_capabilities() of any of them asked in any "
+            "order, the caller emptying / extending the set he was handed last: every answer is monitored against the union over that "
+            "diagram's declared modules, the capabilities of every ModuleSpec object are read at the end (model: unchanged). Exhaustive "
+            "also: consumer declared before / after its producer x 4 port types x outside value raw / exact / over-labelled / shared "
+            "object x 2-3 runs with one mapping object x same / new executor; 3 modules, all 7 sub-diagrams, every ordered pair of "
+            "diagrams asked in turn x no edit / clear / add of the returned set. "
             "non-trivial = at least one accepted wire or one handler invocation; distinct by case content")
     LEVEL_TEXT = ("Coq theorems over all diagrams (any number of modules, ports, attempted wires), all handler oracles (raw, labelled, "
                   "mislabelled, raising, wrong key sets), all external inputs and both enforce_static_checks settings, about a "
@@ -187,7 +199,11 @@ class C16(Check):
                   "before: a relay handing back a value it received is rejected unless that value's own label is the declared one (in "
                   "particular when it is labelled above an input port of the very port type of the output port); for every history of "
                   "register_module / execute calls on one executor each execution equals that of a fresh executor with the handlers "
-                  "registered so far and satisfies all of the above. The model is tied to the code "
+                  "registered so far and satisfies all of the above; the same when execute() is called again and again with the caller's "
+                  "own mapping object (each such call is the execution of what the caller last put into the object, and the object is never "
+                  "written to); required_capabilities() of every diagram, asked in any order of diagrams that share ModuleSpec objects and "
+                  "whatever the caller did to earlier answers, is the duplicate-free union over that diagram's modules and changes no "
+                  "ModuleSpec. The model is tied to the code "
                   "by evaluating it in Coq on every generated diagram the implementation ran.")
     LEVEL_NOTE = ("Trusts: Coq kernel+VM; the correspondence harness; payloads modelled as integers (plus the label a raw payload claims "
                   "for itself) and handlers, within one execution, as deterministic side-effect-free functions of their inputs that "
@@ -536,7 +552,100 @@ class C16(Check):
         # knows labels only): the object received on an input port, one object shared by several ports / modules / executions
         for k, c in enumerate(out):
             self._widen3(rng, c, 0.22 if k < first_new else 0.3)
+        # fifth pass (after everything above was drawn): state that outlives one call -- the caller's own external_inputs mapping
+        # OBJECTS passed to execute() again and again (model: SExecRef / SAssign), and further diagrams over the same ModuleSpec
+        # objects whose required_capabilities() are asked in any order, the caller editing the sets he is handed (model: cap_run)
+        for c in out:
+            self._widen4(rng, c)
         return out
+
+    def _explicit(self, c, ext):
+        """the same assignment with every raw value written as an explicit TypedValue that carries the port's own label"""
+        mods, out = c["mods"], copy.deepcopy(ext)
+        for e in out:
+            for it in e[1]:
+                if it[1][0] == "raw" and e[0] < len(mods) and it[0] < len(mods[e[0]]["in"]):
+                    pt = mods[e[0]]["in"][it[0]]
+                    it[1] = ["lab", pt[0], pt[1], it[1][1]]
+        return out
+
+    def _hs_now(self, c):
+        """the handler scripts registered on the current executor after the case's ops"""
+        n = len(c["mods"])
+        hs = [md["h"] for md in c["mods"]]
+        for o in c.get("ops") or []:
+            if o[0] == "new":
+                hs = [None] * n
+            elif o[0] == "reg" and o[1] < n:
+                hs[o[1]] = o[2]
+        return hs
+
+    def _widen4(self, rng, c):
+        r = rng.random
+        mods = c["mods"]
+        n = len(mods)
+        tags = []
+        if r() < 0.3:
+            ops = c.setdefault("ops", [])
+            last_ext = c["ext"]
+            for o in ops:
+                if o[0] == "exec":
+                    last_ext = o[1]
+            base = copy.deepcopy(last_ext if r() < 0.5 else c["ext"])
+            form = rng.choice(["as-given", "all-values-explicit-TypedValues", "all-values-explicit-TypedValues"])
+            shared = [self._explicit(c, base) if form != "as-given" else base]
+            if r() < 0.35:
+                e2, _t = self._ext_variant(rng, c, base)
+                shared.append(self._explicit(c, e2) if r() < 0.5 else e2)
+            c["shared"] = shared
+            hs = self._hs_now(c)
+            tags.append("caller-mapping:" + form)
+            for i in range(rng.choice([2, 2, 3, 3, 4])):
+                k = rng.randrange(len(shared))
+                q = r()
+                if i and q < 0.2:
+                    # another executor over the same diagram with the same handlers
+                    ops.append(["new"])
+                    regs = [m for m in range(n) if hs[m] is not None]
+                    if r() < 0.5:
+                        regs.reverse()
+                    for m in regs:
+                        ops.append(["reg", m, copy.deepcopy(hs[m])])
+                    tags.append("caller-mapping:passed-to-another-executor")
+                elif i and q < 0.35:
+                    e2, _t = self._ext_variant(rng, c, shared[k])
+                    shared_now = self._explicit(c, e2) if r() < 0.5 else e2
+                    ops.append(["assign", k, shared_now])
+                    tags.append("caller-mapping:rewritten-by-the-caller")
+                elif i and q < 0.45:
+                    ops.append(["exec", copy.deepcopy(c["ext"]), c["enforce"]])
+                ops.append(["execs", k, c["enforce"] if r() < 0.9 else not c["enforce"]])
+        if r() < 0.3:
+            diagrams = []
+            for _ in range(rng.choice([1, 1, 2, 3])):
+                q = r()
+                if q < 0.08:
+                    idx = []
+                elif q < 0.5:
+                    idx = sorted(rng.sample(range(n), rng.randint(1, n)))          # in declaration order
+                else:
+                    idx = rng.sample(range(n), rng.randint(1, n))
+                diagrams.append(idx)
+            capops = []
+            for _ in range(rng.choice([2, 3, 3, 4, 5, 6])):
+                q = r()
+                if q < 0.15:
+                    capops.append(["clear"])
+                elif q < 0.3:
+                    capops.append(["add", rng.randrange(6)])
+                else:
+                    capops.append(["q", rng.randint(0, len(diagrams))])
+            c["diagrams"], c["capops"] = diagrams, capops
+            tags.append("capabilities:module-specs-shared-by-%d-diagrams" % (1 + len(diagrams)))
+            if any(o[0] != "q" for o in capops):
+                tags.append("capabilities:caller-edits-the-returned-set")
+        if tags:
+            c["tags"] = c["tags"] + tags
 
     def _ensure_ret(self, rng, md):
         """the module's script as a ["ret", items] script with an item for every declared output port"""
@@ -992,6 +1101,37 @@ class C16(Check):
                     relay2 = {"in": [s], "out": [o, o], "caps": [], "h": ["ret", [[1, ["fwd", 0]], [0, ["fwd", 0]]]]}
                     out.append({"mods": [relay2], "wires": [], "pool": [lab + [2]],
                                 "ext": [[0, [[0, ["sh", 0]]]]], "enforce": True, "tags": ["exhaustive:relay-two-ports-shared-object"]})
+        # the caller's mapping object used for several runs: a consumer with a wired port and a port fed from outside, declared
+        # before / after its producer; the outside value raw / explicitly labelled (exactly, above the port) / one shared object;
+        # 2 or 3 runs with the same mapping object, the last on the same executor or on another one
+        for pt in ([1, 1], [0, 0], [6, 2], [3, 1]):
+            forms = [["raw", 4], ["lab", pt[0], pt[1], 4], ["sh", 0]] + ([["lab", pt[0], 2, 4]] if pt[1] < 2 else [])
+            for sink_first in (True, False):
+                for v in forms:
+                    for second in ("same", "new"):
+                        for runs in (2, 3):
+                            sink = {"in": [list(pt), list(pt)], "out": [], "caps": [], "h": ["ret", []]}
+                            src = {"in": [], "out": [list(pt)], "caps": [], "h": ["ret", [[0, ["raw", 5]]]]}
+                            si, pi = (0, 1) if sink_first else (1, 0)
+                            ext = [[si, [[1, v]]]]
+                            ops = [["execs", 0, True] for _ in range(runs - 1)]
+                            if second == "new":
+                                ops += [["new"], ["reg", pi, copy.deepcopy(src["h"])], ["reg", si, ["ret", []]]]
+                            ops.append(["execs", 0, True])
+                            out.append({"mods": [sink, src] if sink_first else [src, sink], "wires": [[pi, 0, si, 0]],
+                                        "pool": [[pt[0], pt[1], 4]], "ext": copy.deepcopy(ext), "shared": [copy.deepcopy(ext)],
+                                        "ops": ops, "enforce": True, "tags": ["exhaustive:caller-mapping-reused"]})
+        # ModuleSpec objects shared between diagrams: three modules, every non-empty sub-diagram (declaration order); every ordered
+        # pair of diagrams asked one after the other (and the first again), the caller leaving alone / emptying / extending the
+        # set he was handed in between
+        subs = [[0], [1], [2], [0, 1], [0, 2], [1, 2], [2, 1, 0]]
+        for a in range(len(subs) + 1):
+            for b in range(len(subs) + 1):
+                for edit in (None, ["clear"], ["add", 4]):
+                    out.append({"mods": [{"in": [], "out": [], "caps": cs, "h": None} for cs in ([0], [1, 2], [2, 5])],
+                                "wires": [], "ext": [], "enforce": True, "diagrams": copy.deepcopy(subs),
+                                "capops": [["q", a]] + ([edit] if edit else []) + [["q", b], ["q", a]],
+                                "tags": ["exhaustive:module-specs-shared-between-diagrams"]})
         return out
 
     # -- implementation ----------------------------------------------------
@@ -1017,6 +1157,7 @@ class C16(Check):
             mn, inn, outn = (lambda i: f"p{i}"), (lambda p: f"p{7 - p}"), (lambda p: f"p{p}")
         m_idx = {mn(i): i for i in range(n + 2)}
         o_idx = {outn(p): p for p in range(8)}
+        i_idx = {inn(p): p for p in range(8)}
 
         def pt(p):
             return W.PortType(DT[p[0]], IL[p[1]])
@@ -1161,9 +1302,11 @@ class C16(Check):
             return ex
 
         caps_seen = []
+        held = [None]        # the set the caller was handed by the last required_capabilities()
 
         def read_caps():
-            caps_seen.append(sorted(CAP.index(c) for c in d.required_capabilities()))
+            held[0] = d.required_capabilities()
+            caps_seen.append(sorted(CAP.index(c) for c in held[0]))
 
         if x.get("dup") and n and x["dup"][1] == "pre":
             try_dup()
@@ -1215,14 +1358,53 @@ class C16(Check):
         read_caps()
         caps = caps_seen[-1]
         wires_final = list(d.wires)
+        # further diagrams that hold the SAME ModuleSpec objects; required_capabilities() of any of them in any order; the caller
+        # edits the set he was handed last
+        diagrams = [d]
+        for j, idx in enumerate(case.get("diagrams") or []):
+            if (j + (1 if x.get("ctor") else 0)) % 2:
+                d2 = W.WiringDiagram(modules={mn(i): originals[i] for i in idx})
+            else:
+                d2 = W.WiringDiagram()
+                for i in idx:
+                    d2.add_module(originals[i])
+            diagrams.append(d2)
+        cap_answers = []
+        for o in case.get("capops") or []:
+            if o[0] == "q":
+                held[0] = diagrams[o[1]].required_capabilities()
+                cap_answers.append((o[1], sorted(CAP.index(c) for c in held[0])))
+            elif o[0] == "clear":
+                held[0].clear()
+            else:
+                held[0].add(CAP[o[1]])
         if ex is None:
             ex = make_executor()
 
-        def execute_once(ex, ext_case, enforce=None):
+        def mkext(ext_case):
+            return {mn(m): {inn(p): mkval(v) for p, v in ps} for m, ps in ext_case}
+
+        # the caller's own mapping objects, built ONCE per case: ["execs", k, flag] passes the very object #k to execute()
+        shared = [mkext(e) for e in case.get("shared") or []]
+
+        def store_obs(k):
+            """what the caller finds in his mapping object #k"""
+            o = []
+            for name, inner in shared[k].items():
+                o += [m_idx.get(name, 99), len(inner)]
+                for pname, val in inner.items():
+                    o.append(i_idx.get(pname, 99))
+                    o += [1] + tv_codes(val) if isinstance(val, R.TypedValue) else [0, 0, 0, payload_int(val)]
+            return o
+
+        def execute_once(ex, ext_case, enforce=None, arg_obj=None):
             enforce = case["enforce"] if enforce is None else enforce
             rec["calls"], rec["returned"] = [], []
-            ext = {mn(m): {inn(p): mkval(v) for p, v in ps} for m, ps in ext_case}
-            arg = ext if (ext or x.get("extempty")) else None
+            if arg_obj is not None:
+                arg = arg_obj
+            else:
+                ext = mkext(ext_case)
+                arg = ext if (ext or x.get("extempty")) else None
             report, code, kind = None, 0, 0
             try:
                 if x.get("positional"):
@@ -1306,6 +1488,17 @@ class C16(Check):
                         r = 99
                 ops_obs.append([-5, r])
                 ops_tr.append(("reg", m, script, r))
+            elif op[0] == "execs":      # execute() with the caller's mapping object #k -- the same object every time
+                _e, k, enf = op
+                t_k, tr_k = execute_once(ex, None, enf, arg_obj=shared[k])
+                found = store_obs(k)
+                ops_obs += [[-6]] + t_k + [[-8, k] + found]
+                ops_tr.append(("execs", k, enf, tr_k, found))
+            elif op[0] == "assign":     # the caller rewrites his mapping object #k himself (same object, new contents)
+                _a, k, ext_k = op
+                shared[k].clear()
+                shared[k].update(mkext(ext_k))
+                ops_tr.append(("assign", k, ext_k))
             else:
                 _e, ext_k, enf = op
                 t_k, tr_k = execute_once(ex, ext_k, enf)
@@ -1315,11 +1508,15 @@ class C16(Check):
                   and sorted(CAP.index(c) for c in d.required_capabilities()) == caps)
         # the model's observation is that of the main execution; a repeated execution that observes something else is reported
         # in its place (marked), so that the deviation from the (functional) model surfaces as a correspondence mismatch
-        obs = [connects, caps, [-6]] + (tail if deviating is None else deviating + [[-777]]) + ops_obs
+        cap_rows = [[-9, dix] + a for dix, a in cap_answers]
+        # the capabilities each ModuleSpec object declares, read at the very end
+        cap_rows += [[-10, i] + sorted(CAP.index(c) for c in originals[i].capabilities) for i in range(n)]
+        obs = [connects, caps] + cap_rows + [[-6]] + (tail if deviating is None else deviating + [[-777]]) + ops_obs
         if not stable:      # building is over before the first execute(): executing must not alter the diagram
             obs.append([-778])
         trace = {"connects": connects, "connect_kinds": ckinds, "wires_ok": wires_ok, "caps": caps, "caps_seen": caps_seen,
-                 "flow_q": flow_q, "dup": dup_res, "regbad": regbad, "stable": stable, "more": more, "ops": ops_tr}
+                 "flow_q": flow_q, "dup": dup_res, "regbad": regbad, "stable": stable, "more": more, "ops": ops_tr,
+                 "cap_answers": cap_answers}
         trace.update(main)
         return obs, trace
 
@@ -1364,9 +1561,16 @@ class C16(Check):
             return clist([ctuple(cnat(m), clist([ctuple(cnat(p), cval(v)) for p, v in ps])) for m, ps in e])
 
         forced = clist([ctuple(*[cnat(v) for v in w]) for w in case.get("forced") or []])
-        ops = clist(["SNew" if o[0] == "new" else f"SReg {cnat(o[1])} {ch(o[2])}" if o[0] == "reg" else f"SExec {cext(o[1])} {cbool(o[2])}"
+        ops = clist(["SNew" if o[0] == "new" else f"SReg {cnat(o[1])} {ch(o[2])}" if o[0] == "reg" else
+                     f"SExecRef {cnat(o[1])} {cbool(o[2])}" if o[0] == "execs" else
+                     f"SAssign {cnat(o[1])} {cext(o[2])}" if o[0] == "assign" else f"SExec {cext(o[1])} {cbool(o[2])}"
                      for o in case.get("ops") or []])
-        return "(" + ctuple(cms, ws, forced, cext(case["ext"]), cbool(case["enforce"]), ops) + " : case)"
+        shared = clist([cext(e) for e in case.get("shared") or []])
+        diagrams = clist([clist([cnat(i) for i in idx]) for idx in case.get("diagrams") or []])
+        capops = clist([f"QCaps {cnat(o[1])}" if o[0] == "q" else "QClear" if o[0] == "clear" else f"QAdd {CAPN[o[1]]}"
+                        for o in case.get("capops") or []])
+        world = "(" + ctuple(shared, diagrams, capops) + " : world)"
+        return "(" + ctuple(cms, ws, forced, cext(case["ext"]), cbool(case["enforce"]), ops, world) + " : case)"
 
     # -- the property, on the implementation's trace ------------------------
     def monitor(self, case, obs, trace):
@@ -1412,6 +1616,18 @@ class C16(Check):
         for seen in trace.get("caps_seen") or [trace["caps"]]:
             if seen != union:
                 return Violation("C16/capabilities-not-union", f"required_capabilities() = {seen}, union over the modules = {union}")
+        # ... over the modules of THAT diagram, whenever and in whatever order diagrams that share ModuleSpec objects are asked,
+        # and whatever the caller did with the sets he was handed before
+        all_d = [list(range(n))] + (case.get("diagrams") or [])
+        for j, (dix, seen) in enumerate(trace.get("cap_answers") or []):
+            want = sorted({c for i in all_d[dix] for c in mods[i]["caps"]})
+            if seen != want:
+                qs = [o for o in case["capops"]]
+                return Violation("C16/capabilities-not-union",
+                                 f"required_capabilities() of diagram #{dix} (modules {all_d[dix]}, declared capabilities "
+                                 f"{[mods[i]['caps'] for i in all_d[dix]]}) = {seen}, union over its modules = {want}; answer #{j + 1} of the "
+                                 f"queries / edits {qs} on diagrams {all_d} that share their ModuleSpec objects (diagram #0 was asked "
+                                 f"{len(trace.get('caps_seen') or [])} times before)")
         if case.get("forced"):
             # wires were put into diagram.wires without connect: not "an accepted diagram", the property says nothing about
             # its executions (with enforce_static_checks=False the code delivers along such wires unchecked, by design).
@@ -1428,6 +1644,7 @@ class C16(Check):
         hs = [md["h"] for md in mods]
         k, hist = 1 + len(trace.get("more") or []), [ERRNAME.get(trace["kind"], trace["kind"])]
         which = "the same executor"
+        store, used = copy.deepcopy(case.get("shared") or []), {}
         for o in trace.get("ops") or []:
             if o[0] == "new":
                 hs, which = [None] * n, "another executor over the same diagram"
@@ -1436,8 +1653,20 @@ class C16(Check):
                 if o[1] < n and o[3] == 0:
                     hs = hs[:o[1]] + [o[2]] + hs[o[1] + 1:]
                 continue
+            if o[0] == "assign":
+                store[o[1]] = o[2]
+                continue
             k += 1
-            where = (f" [execute() #{k}, on {which}, external inputs {o[1]}, enforce_static_checks={o[2]}, handlers {hs}; "
+            if o[0] == "execs":
+                # judged on its own like every execution: what the caller gave is what he put into that mapping object
+                kk = o[1]
+                used[kk] = used.get(kk, 0) + 1
+                o = ("exec", store[kk], o[2], o[3])
+                how = (f"external inputs = the caller's mapping object #{kk}, contents {store[kk]} (passed to execute() for the "
+                       f"{used[kk]}. time, the same object every time)")
+            else:
+                how = f"external inputs {o[1]}"
+            where = (f" [execute() #{k}, on {which}, {how}, enforce_static_checks={o[2]}, handlers {hs}; "
                      f"the earlier executions ended with {hist}]")
             v = self._monitor_execution(case, o[1], o[3], acc, where, hs)
             if v:
@@ -1555,13 +1784,15 @@ class C16(Check):
             ks.append("duplicate-add_module=" + {0: "accepted", 1: "WiringError"}.get(r, "other-exception"))
         for r in trace.get("regbad") or []:
             ks.append("register-unknown-module=" + {0: "accepted", 1: "WiringError"}.get(r, "other-exception"))
-        nex = 1 + len(trace.get("more") or []) + sum(1 for o in trace.get("ops") or [] if o[0] == "exec")
+        nex = 1 + len(trace.get("more") or []) + sum(1 for o in trace.get("ops") or [] if o[0] in ("exec", "execs"))
         if nex > 1:
             ks.append("executions=" + str(nex))
         prev = trace.get("kind")
         for o in trace.get("ops") or []:
-            if o[0] == "new":
+            if o[0] in ("new", "assign"):
                 continue
+            if o[0] == "execs":
+                ks.append("later-execute-with-the-callers-mapping-object:" + ("report" if o[3]["kind"] == 0 else "failure"))
             if o[0] == "reg":
                 ks.append("later-register=" + {0: "ok", 1: "WiringError"}.get(o[3], "other-exception"))
             else:
@@ -1585,6 +1816,8 @@ class C16(Check):
         c["ext"] = common.shrink_list(c["ext"], lambda es: pred({**c, "ext": es}))
         if c.get("ops"):
             c["ops"] = common.shrink_list(c["ops"], lambda os: pred({**c, "ops": os}))
+        if c.get("capops"):
+            c["capops"] = common.shrink_list(c["capops"], lambda os: pred({**c, "capops": os}))
         for k in list(c.get("x") or {}):
             x2 = {k2: v for k2, v in c["x"].items() if k2 != k}
             try:
